@@ -111,6 +111,12 @@ QUICK_DEMOTE = {
     'C01': [r'^votes::ex_', r'^gates::.*_ex::', r'^gates::capped'],
     'C02': [r'^votes::ex_', r'^gates::.*_ex::'],
 }
+# ... and these thorough harnesses are cheap enough for the quick tier (longer checkpoint timelines: 8 entries)
+QUICK_PROMOTE = {'C13': [r'lookup_votes_8$', r'lookup_total_8$']}
+for _pid, _pats in QUICK_PROMOTE.items():
+    if _pid in CHECKS:
+        CHECKS[_pid]['kani'] = [dict(_s, tier='quick') if any(_re.search(_p, _s['harness']) for _p in _pats) else _s
+                                for _s in CHECKS[_pid].get('kani', [])]
 for _pid, _pats in QUICK_DEMOTE.items():
     if _pid in CHECKS:
         _new = []
